@@ -1057,7 +1057,8 @@ Theorem C01_lost_stage_add_applied :
   healthy_round P plogs nticks o st = Some st' ->
   exists b, o = OBatch b /\ StageB L s0 f0 st' /\
     d_tick (f_db st') = d_tick (f_db st) + N.of_nat nticks * p_step P /\
-    (length (hist_of (f_hist st) s0) < length (hist_of (f_hist st') s0))%nat.
+    (length (hist_of (f_hist st) s0) < length (hist_of (f_hist st') s0))%nat /\
+    mem_tick st' s0 f0 = mem_tick st s0 f0.
 Proof. exact lost_stage_add_applied. Qed.
 Print Assumptions C01_lost_stage_add_applied.
 
@@ -1073,7 +1074,7 @@ Theorem C01_lost_stage_join :
   (forall st4, pre_schedule P plogs nticks st = Some st4 -> fresh_ok st4 (ESchedule o)) ->
   healthy_round P plogs nticks o st = Some st' ->
   exists b x t, o = OBatch b /\ StageC L s0 f0 x t st' /\ f_hist st' = f_hist st /\
-    d_tick (f_db st') = d_tick (f_db st) + N.of_nat nticks * p_step P.
+    d_tick (f_db st') = d_tick (f_db st) + N.of_nat nticks * p_step P /\ mem_tick st' s0 f0 = mem_tick st s0 f0.
 Proof. exact lost_stage_join. Qed.
 Print Assumptions C01_lost_stage_join.
 
@@ -1089,7 +1090,7 @@ Theorem C01_lost_stage_join_started :
   (forall st4, pre_schedule P plogs nticks st = Some st4 -> fresh_ok st4 (ESchedule o)) ->
   healthy_round P plogs nticks o st = Some st' ->
   exists b, o = OBatch b /\ StageD L s0 f0 x t st' /\ f_hist st' = f_hist st /\
-    d_tick (f_db st') = d_tick (f_db st) + N.of_nat nticks * p_step P.
+    d_tick (f_db st') = d_tick (f_db st) + N.of_nat nticks * p_step P /\ mem_tick st' s0 f0 = mem_tick st s0 f0.
 Proof. exact lost_stage_join_started. Qed.
 Print Assumptions C01_lost_stage_join_started.
 
@@ -1110,3 +1111,68 @@ Theorem C01_lost_stage_delete :
     d_tick (f_db st') = d_tick (f_db st) + N.of_nat nticks * p_step P.
 Proof. exact lost_stage_delete. Qed.
 Print Assumptions C01_lost_stage_delete.
+
+(* stage (d): the DELETE of the lost member is applied. From StageE the round ends - for every allowed outcome but
+   OCrash - in a state of class MendB (no lost member is left among the current members: the class of
+   FleetMendBProofs, without L) in which every pending request is a harmless leftover (the DELETE that Drummer
+   schedules again from the old view is stale): the membership history of s0 has got exactly one more entry, the removal
+   of f0; the other shards are untouched. From here the theorems of the MendB / Mend classes take over:
+   C01_heal_stage_change_settled (the next healthy round ends in Mend), C01_heal_mendb (healed after
+   detect_rounds + 6 more healthy rounds, and stays healed). *)
+Theorem C01_lost_stage_delete_applied :
+  forall (L : N -> N -> Prop) (P : params), (forall s rid, L s rid \/ ~ L s rid) ->
+  forall (s0 f0 x t : N) (st st' : fstate) (plogs : N -> bool) (nticks : nat) (o : outcome),
+  StageE L s0 f0 x t st -> (forall a, plogs a = true) -> N.of_nat nticks * p_step P < p_ttl P ->
+  (forall s, is_Some (f_hist st !! s) -> exists a, spare st a s) -> o <> OCrash ->
+  (forall st4, pre_schedule P plogs nticks st = Some st4 -> fresh_ok st4 (ESchedule o)) ->
+  healthy_round P plogs nticks o st = Some st' ->
+  exists b, o = OBatch b /\ MendB st' /\ (forall a q, nonout st' a q -> mharmless (f_hist st') a q) /\
+    (forall s h rid a, f_hist st' !! s = Some h -> cur_members h !! rid = Some a -> ~ L s rid) /\
+    (exists (e0 : hentry) (hs1 : list hentry), f_hist st !! s0 = Some (e0 :: hs1) /\
+       f_hist st' !! s0 = Some (((e0.1 + 1, delete f0 e0.2) : hentry) :: e0 :: hs1) /\ is_Some (e0.2 !! f0)) /\
+    (forall s, s <> s0 -> f_hist st' !! s = f_hist st !! s) /\
+    d_tick (f_db st') = d_tick (f_db st) + N.of_nat nticks * p_step P.
+Proof. exact lost_stage_delete_applied. Qed.
+Print Assumptions C01_lost_stage_delete_applied.
+
+(* the bridge from C01_lost_round to stage (a): when the lost member (s0, f0) is the only one and is overdue at the
+   leader's tick of this round, the round ends in StageA - in particular the replacement ADD is pending for the NodeHost
+   of a HEALTHY member of s0 (the scheduler picks the proposer among the replicas it considers ok; the failed one is
+   the lost one). The record of the lost member is not touched (mem_tick). *)
+Theorem C01_lost_round_stagea :
+  forall (L : N -> N -> Prop) (P : params), (forall s rid, L s rid \/ ~ L s rid) ->
+  forall (s0 f0 : N) (st st' : fstate) (plogs : N -> bool) (nticks : nat) (o : outcome),
+  Lost L st -> (forall s f, L s f -> s = s0 /\ f = f0) -> L s0 f0 ->
+  (forall a, plogs a = true) -> N.of_nat nticks * p_step P < p_ttl P ->
+  (forall s, is_Some (f_hist st !! s) -> exists a, spare st a s) -> o <> OCrash ->
+  (forall st4, pre_schedule P plogs nticks st = Some st4 -> fresh_ok st4 (ESchedule o)) ->
+  p_ttl P < d_tick (f_db st) + N.of_nat nticks * p_step P - mem_tick st s0 f0 ->
+  healthy_round P plogs nticks o st = Some st' ->
+  StageA L s0 f0 st' /\ f_hist st' = f_hist st /\
+  d_tick (f_db st') = d_tick (f_db st) + N.of_nat nticks * p_step P /\ mem_tick st' s0 f0 = mem_tick st s0 f0.
+Proof. exact lost_round_stagea. Qed.
+Print Assumptions C01_lost_round_stagea.
+
+(** ** C01_heal_single_failure: a single lost member is replaced, end to end.
+    st is of class Lost with exactly one lost member (s0, f0): a current member whose NodeHost is up but has none of its
+    data (disk replaced), every other member runs, the fleet is otherwise calm. Hypotheses, all explicit: every round
+    of the run is healthy (every NodeHost reports with its persisted log, delivers, executes; Raft catches up; the
+    leader ticks), nticks * step < ttl, and - the bundle lost_hyps, per round - a spare NodeHost exists for every
+    shard, the ids drawn are fresh, and the outcome is not OCrash (the random source never returns replica id 0; the
+    scheduler model allows OCrash whenever an ADD is due). Then, for EVERY sequence of allowed outcomes, after
+    B = 2 * detect_rounds + 10 healthy rounds the fleet is in Mend and healed (every shard has its full set of running,
+    reporting members; it stays healed by C01_heal_mend): at most detect_rounds rounds until the ADD is scheduled
+    (C01_lost_round_wait, C01_lost_round_stagea), then the five rounds C01_lost_stage_add_applied,
+    C01_lost_stage_join, C01_lost_stage_join_started, C01_lost_stage_delete, C01_lost_stage_delete_applied, then one
+    round to Mend (C01_heal_stage_change_settled) and detect_rounds + 4 rounds of the Mend class (rank argument). *)
+Theorem C01_heal_single_failure :
+  forall (L : N -> N -> Prop) (P : params), (forall s rid, L s rid \/ ~ L s rid) ->
+  forall (plogs : N -> bool) (nticks : nat) (s0 f0 : N) (os : list outcome) (st st' : fstate),
+  Lost L st -> (forall s f, L s f -> s = s0 /\ f = f0) -> L s0 f0 ->
+  (forall a, plogs a = true) -> N.of_nat nticks * p_step P < p_ttl P -> (0 < nticks)%nat -> 0 < p_step P ->
+  lost_hyps P plogs nticks os st ->
+  (2 * detect_rounds P nticks + 10 <= length os)%nat ->
+  healthy_rounds P plogs nticks os st = Some st' ->
+  Mend st' /\ healed P st' = true.
+Proof. exact lost_heal_single_failure. Qed.
+Print Assumptions C01_heal_single_failure.
